@@ -284,6 +284,94 @@ fn check_iso(rng: &mut Rng, out: &mut UnitResult) {
 
 const DAY_UNITS: u64 = 16;
 
+/// End to end: date-styled numeric cells of generated xlsx / xlsb / xls workbooks in both date
+/// systems and every numeric cell encoding (incl. formula cells with a cached number) are read
+/// back and converted; the calendar date must be the one the *workbook's* date system gives.
+fn end_to_end(rng: &mut Rng, out: &mut UnitResult, unit: u64, i: u64) {
+    use crate::model::*;
+    use calamine::Reader;
+    use std::io::Cursor;
+    let date1904 = rng.bool();
+    let mut book = MBook { xfs: crate::gen::basic_xfs(), date1904, ..Default::default() };
+    let mut sh = MSheet::new("Dates");
+    let mut want: Vec<(Pos, f64)> = vec![];
+    for r in 0..12u32 {
+        for c in 0..3u32 {
+            let v = match rng.below(4) {
+                0 => rng.range(0, 70) as f64,
+                1 => rng.range(30_000, 50_000) as f64,
+                2 => rng.range(30_000, 50_000) as f64 + 0.25,
+                _ => rng.range(1, 60_000) as f64 + rng.range(0, 86_399) as f64 / 86_400.0,
+            };
+            // xf 2 and 3 of basic_xfs are date formats (built-in 14 and a custom one)
+            let mut cell = MCell { val: Val::Num(v), xf: Some(2 + rng.usize(2)), formula: None };
+            if rng.chance(1, 4) {
+                cell.formula = Some("A1+1".into());
+            }
+            sh.cells.insert((r, c), cell);
+            want.push(((r, c), v));
+        }
+    }
+    book.sheets.push(sh);
+    let files: Vec<(&str, Vec<u8>)> = vec![
+        ("xlsx", crate::enc::xlsx::encode(&book, &crate::enc::xlsx::XlsxChoices::random(rng), rng).bytes),
+        ("xlsb", {
+            let mut ch = crate::enc::xlsb::XlsbChoices::random(rng);
+            ch.big_noise = false;
+            crate::enc::xlsb::encode(&book, &ch, &Default::default(), rng).bytes
+        }),
+        ("xls", crate::enc::xls_file(&book, &crate::enc::biff8::BiffChoices::random(rng), &Default::default(), &Default::default(), &[], rng).0),
+    ];
+    for (fmt, bytes) in files {
+        out.feat(&format!("end_to_end:{}:{}", fmt, if date1904 { "1904" } else { "1900" }));
+        let range = guard(|| -> Result<calamine::Range<Data>, String> {
+            match fmt {
+                "xlsx" => calamine::Xlsx::new(Cursor::new(bytes.clone())).map_err(|e| e.to_string())?.worksheet_range("Dates").map_err(|e| e.to_string()),
+                "xlsb" => calamine::Xlsb::new(Cursor::new(bytes.clone())).map_err(|e| e.to_string())?.worksheet_range("Dates").map_err(|e| e.to_string()),
+                _ => calamine::Xls::new(Cursor::new(bytes.clone())).map_err(|e| e.to_string())?.worksheet_range("Dates").map_err(|e| e.to_string()),
+            }
+        });
+        let ctx = json!({"unit": unit, "case": i, "format": fmt, "date1904": date1904, "input_hex": hex(&bytes)});
+        let range = match range {
+            Ok(Ok(r)) => r,
+            Ok(Err(e)) => {
+                out.fail(format!("c11|end_to_end|{}|read_error", fmt), json!({"ctx": ctx, "err": e}));
+                continue;
+            }
+            Err(f) => {
+                out.fail(format!("c11|end_to_end|{}|fault:{}", fmt, f.class), ctx);
+                continue;
+            }
+        };
+        for (p, v) in &want {
+            let Some(cell) = range.get_value(*p) else {
+                out.fail(format!("c11|end_to_end|{}|cell_missing", fmt), json!({"ctx": ctx, "cell": a1(*p)}));
+                break;
+            };
+            let got = guard(|| cell.as_datetime());
+            let eff = if date1904 { v + 1462.0 } else { *v };
+            if (60.0..61.0).contains(&eff) {
+                continue;
+            }
+            match (got, reference_dt(*v, date1904)) {
+                (Ok(Some(g)), Some((lo, hi))) if g >= lo && g <= hi => out.sum("end_to_end_conversions", 1),
+                (Ok(g), w) => {
+                    out.fail(
+                        format!("c11|end_to_end|{}|{}|date", fmt, if date1904 { "1904" } else { "1900" }),
+                        json!({"ctx": ctx, "cell": a1(*p), "serial": v, "cell_read": format!("{:?}", cell), "got": format!("{:?}", g), "want": format!("{:?}", w.map(|x| x.0))}),
+                    );
+                    break;
+                }
+                (Err(f), _) => {
+                    out.fail(format!("c11|end_to_end|{}|fault:{}", fmt, f.class), ctx.clone());
+                    break;
+                }
+            }
+        }
+        out.case(Some(crate::prng::hash_bytes(&bytes)));
+    }
+}
+
 impl Prop for C11 {
     fn id(&self) -> &'static str {
         "C11"
@@ -306,7 +394,7 @@ impl Prop for C11 {
         Some("every whole-day serial 0..=2958465 in the 1900 and the 1904 system".into())
     }
     fn mandatory(&self, _t: Tier) -> Vec<String> {
-        ["whole_day", "frac_ms", "frac_day_edge", "special", "duration", "plain_float", "plain_int", "iso", "monotone_pair"]
+        ["whole_day", "frac_ms", "frac_day_edge", "special", "duration", "plain_float", "plain_int", "iso", "monotone_pair", "end_to_end:xlsx:1900", "end_to_end:xlsx:1904", "end_to_end:xlsb:1900", "end_to_end:xlsb:1904", "end_to_end:xls:1900", "end_to_end:xls:1904"]
             .iter().map(|s| s.to_string()).collect()
     }
     fn run_unit(&self, ctx: &Ctx, unit: u64, out: &mut UnitResult) {
@@ -346,6 +434,9 @@ impl Prop for C11 {
             return;
         }
         let mut rng = Rng::derive(ctx.seed, "c11", unit);
+        for i in 0..ctx.tier.pick(3, 12) {
+            end_to_end(&mut rng, out, unit, i);
+        }
         let n = ctx.tier.pick(700, 7000);
         for _ in 0..n {
             let day = match rng.below(6) {
